@@ -312,9 +312,12 @@ def r035(ctx):
         a = peel(fl["args"][0])
         ok = False
         if a.get("k") == "local":
-            d = defs.get(a["id"])
-            if d and d[0] == "let" and "init" in d[1]:
-                init = strip_try(d[1]["init"])
-                pat = d[2]
+            d = defs.get(a["id"]) or defs.get(canon(a["id"]))
+            # bound by `let Fail(wit) = bmc(..)? else ..`, `if let Fail(wit) = bmc(..)?` or an arm `Fail(wit) =>` of `match bmc(..)?`
+            if d and d[0] in ("let", "letexpr", "arm"):
+                src = d[1].get("init") if d[0] != "arm" else d[1]["scrut"]
+                init = strip_try(src) if src is not None else {}
+                pats = [d[2]] if d[0] != "arm" else [arm["pat"] for arm in d[1]["arms"] if any(i_ == a["id"] or canon(i_) == canon(a["id"]) for _, i_ in pat_bindings(arm["pat"]))]
+                pat = pats[0] if pats else {}
                 ok = init.get("k") == "call" and callee(init) == BMC and pat.get("k") == "pvariant" and pat["path"] == FAIL
         ctx.inst("R03.5", "pdr:Fail#%d" % (i + 1), ok, fl["sp"], "the witness of pdr's Fail is not the witness destructured from a bmc(..) result: %s" % show(fl), sample=show(fl))
